@@ -472,3 +472,11 @@ M('r2-coin-shared', ['C06', 'C16'], PU,
 CASES.append({'id': 'r2-coin-shared', 'props': ['C06', 'C16'], 'kind': 'mutant', 'rules': ['R15.fresh'], 'edits': [
     (PU, "    log2prob = 0.\n    for k in range(L): # for each observable gs_obs[k]\n        update = False", "    log2prob = 0.\n    bit = numpy.random.randint(2)\n    for k in range(L): # for each observable gs_obs[k]\n        update = False", 'stabilizer_measure'),
     (PU, "            ps_stb[p] = 2 * numpy.random.randint(2)\n", "            ps_stb[p] = 2 * bit\n", 'stabilizer_measure')]})
+
+# ------------------------------------------------------------------ R19 mixed-library dataflow (torch port)
+M('r19-embed-tensor-mask', ['C03', 'C09', 'C10', 'C13', 'C18'], TS, '        mask2 = numpy.repeat(numpy.array(mask), 2)', '        mask2 = numpy.repeat(mask, 2)', ['R19'])
+M('r19-gate-tensor-qubits', ['C13', 'C18', 'C09'], TC, '    qubits_cond = qubits_cond.tolist() # plain integer qubit indices\n', '', ['R19'])
+B('r19-benign-embed-torch-ops', ['C03', 'C09', 'C10', 'C13', 'C18'], TS,
+  '        mask2 = numpy.repeat(numpy.array(mask), 2)\n        self.gs[numpy.ix_(mask2, mask2)] = small_map.gs\n        self.ps[mask2] = small_map.ps',
+  '        mask2 = numpy.repeat(mask.cpu().numpy(), 2)\n        self.gs[numpy.ix_(mask2, mask2)] = small_map.gs\n        self.ps[mask2] = small_map.ps')
+B('r19-benign-gate-int-list', ['C13', 'C18', 'C09'], TC, '    qubits_cond = qubits_cond.tolist() # plain integer qubit indices\n', '    qubits_cond = [int(q) for q in qubits_cond]\n')
